@@ -573,6 +573,30 @@ def main():
     except ValueError:
         seed = 1
     cfg = PROPS[prop]
+    if "--replay" in args:
+        # re-run the workload that produced a witness (same tier and seed: every workload is a function of them) against the
+        # current tree and say whether the recorded signature shows again; evidence and replay files are left alone
+        path = args[args.index("--replay") + 1]
+        with open(path) as fh:
+            rec = json.load(fh)
+        tier, seed = rec.get("tier", tier), int(rec.get("seed", seed))
+        merged = new_merged()
+        problems = ENGINES[cfg["engine"]](prop, cfg, tier, seed, merged)
+        sig = rec.get("signature")
+        hit = merged["violations"].get(sig)
+        print("REPLAY property=%s tier=%s seed=%d signature=%s" % (prop, tier, seed, sig))
+        for w in rec.get("witnesses", [])[:1]:
+            print("RECORDED-WITNESS " + json.dumps(w)[:1500])
+        if hit:
+            print("REPRODUCED count=%d" % hit["count"])
+            for w in hit["witnesses"][:1]:
+                print("CURRENT-WITNESS " + json.dumps(w)[:1500])
+            print("VIOLATION property=%s replay=%s" % (prop, path))
+            return 1
+        for pr in problems:
+            print("INCONCLUSIVE property=%s reason=%s" % (prop, pr[:300]))
+        print("NOT-REPRODUCED (the signature does not occur on the current tree)")
+        return 2 if problems else 0
     t0 = time.time()
     merged = new_merged()
     problems = ENGINES[cfg["engine"]](prop, cfg, tier, seed, merged)
